@@ -77,6 +77,10 @@ use tokio::time::Duration;
 use tracing::warn;
 use xor_name::XorName;
 
+#[cfg(feature = "verif-hooks")]
+#[path = "verif_hooks/driver.rs"]
+pub mod verif_hooks;
+
 /// Interval over which we check for the farthest record we _should_ be holding
 /// based upon our knowledge of the CLOSE_GROUP
 pub(crate) const CLOSET_RECORD_CHECK_INTERVAL: Duration = Duration::from_secs(15);
@@ -421,6 +425,9 @@ impl NetworkBuilder {
                 ..Default::default()
             }
         };
+
+        #[cfg(feature = "verif-hooks")]
+        let store_cfg = verif_hooks::apply_store_overrides(store_cfg);
 
         let listen_addr = self.listen_addr;
         #[cfg(feature = "upnp")]
